@@ -254,11 +254,19 @@ impl<'env> Executor<'env> {
 
         macro_rules! recurse_loop {
             ($capture:expr, $loop_object:expr) => {{
-                let Some(jump_target) = $loop_object.recurse_jump_target else {
-                    bail!(Error::new(
+                let jump_target = match $loop_object.recurse_jump_target {
+                    // the loop object might have travelled into a macro or an
+                    // include of another template: the jump target is only
+                    // valid in the instructions the loop is a part of.
+                    Some((instructions, jump_target))
+                        if instructions == state.instructions as *const Instructions as usize =>
+                    {
+                        jump_target
+                    }
+                    _ => bail!(Error::new(
                         ErrorKind::InvalidOperation,
                         "cannot recurse outside of recursive loop",
-                    ))
+                    )),
                 };
                 // the way this works is that we remember the next instruction
                 // as loop exit jump target.  Whenever a loop is pushed, it
@@ -1180,7 +1188,8 @@ impl<'env> Executor<'env> {
                 iter,
                 depth,
                 flags & LOOP_FLAG_WITH_LOOP_VAR != 0,
-                (flags & LOOP_FLAG_RECURSIVE != 0).then_some(pc),
+                (flags & LOOP_FLAG_RECURSIVE != 0)
+                    .then_some((state.instructions as *const Instructions as usize, pc)),
                 current_recursion_jump,
             )),
             ..Frame::default()
